@@ -1,5 +1,5 @@
 //! Executes one scenario against the real server code under the simulator and records the history.
-use super::client::{frame_of, FrameParser, RxFrame, RxMsg};
+use super::client::{frames_of, FrameParser, RxFrame, RxMsg};
 use super::scenario::*;
 use spl_frontend::tokens::{Token, TokenChange};
 use spl_frontend::{AnalyzedSource, TextChange};
@@ -181,7 +181,7 @@ fn build_segments(sc: &Scenario, frames: &[Vec<u8>], total: usize) -> (Vec<Segme
 }
 
 pub fn session_bytes(sc: &Scenario) -> (Vec<Vec<u8>>, Vec<u8>) {
-    let frames: Vec<Vec<u8>> = sc.script.iter().map(|s| frame_of(s)).collect();
+    let frames: Vec<Vec<u8>> = frames_of(&sc.script);
     let stream: Vec<u8> = frames.iter().flatten().copied().collect();
     (frames, stream)
 }
